@@ -30,10 +30,23 @@ def configs(tier):
                 for n2 in range(nmax + 1):
                     if n1 + n2 > tot:
                         continue
-                    if not spike and meas in ("isi", "sync") and n1 + n2 <= 2:
-                        # MRTS='auto' must not depend on where the recording window sits
-                        yield dict(name="%s-%s-shift-auto-%d+%d" % (be, meas, n1, n2), backend=be, meas=meas, tr="shift",
-                                   par="auto", n1=n1, n2=n2, validate=2, cost=30 * 5 ** (n1 + n2))
+                    if not spike and meas in ("isi", "sync") and n1 + n2 <= 3:
+                        # MRTS='auto' must not depend on where the recording window sits, on the direction of
+                        # time (first/last ISI treated alike) nor on the unit of time
+                        for tr in ("shift", "reverse", "scale2"):
+                            if tr != "shift" and (be == "pyx" or meas == "sync"):
+                                continue
+                            if n1 + n2 == 3 and (tr != "reverse" or max(n1, n2) != 2):
+                                continue          # 2+1 / 1+2: a train with a proper ISI next to an edge spike
+                            yield dict(name="%s-%s-%s-auto-%d+%d" % (be, meas, tr, n1, n2), backend=be, meas=meas, tr=tr,
+                                       par="auto", n1=n1, n2=n2, validate=2, cost=30 * 5 ** (n1 + n2))
+                    if n1 + n2 <= 2 and be == "py" and meas in ("isi", "spike", "sync"):
+                        # the SAME SpikeTrain objects evaluated, moved in place (spike times and both edges) and
+                        # evaluated again with Reconcile=False: nothing remembered from the first evaluation may
+                        # leak into the second
+                        yield dict(name="%s-%s-shift-inplace-%d+%d" % (be, meas, n1, n2), backend=be, meas=meas,
+                                   tr="shift", par="plain", inplace=True, n1=n1, n2=n2, fork=spike, validate=2,
+                                   cost=2 * (9 if spike else 5) ** (n1 + n2))
                     for tr in TRANSFORMS:
                         for par in ("plain", "sym"):
                             if q and tr in ("scale025", "scale3") and (par == "sym" or n1 + n2 > 2 or be == "pyx"):
@@ -70,10 +83,10 @@ def transform(tr, ts, te, E):
 
 def run(meas, a, b, kw):
     if meas == "isi":
-        k2 = {k: v for k, v in kw.items() if k == "MRTS"}
+        k2 = {k: v for k, v in kw.items() if k in ("MRTS", "Reconcile")}
         return pyspike.isi_profile(a, b, **k2), pyspike.isi_distance(a, b, **k2)
     if meas in ("spike", "spikeRI"):
-        k2 = {k: v for k, v in kw.items() if k == "MRTS"}
+        k2 = {k: v for k, v in kw.items() if k in ("MRTS", "Reconcile")}
         if meas == "spikeRI":
             k2["RI"] = True
         return pyspike.spike_profile(a, b, **k2), pyspike.spike_distance(a, b, **k2)
@@ -110,7 +123,16 @@ def program(E, cfg):
         a2 = hx.train([ft(t) for t in s1], ft(ts), ft(te))
         b2 = hx.train([ft(t) for t in s2], ft(ts), ft(te))
     meas = cfg["meas"]
+    if cfg.get("inplace"):
+        kw["Reconcile"] = False
+        kw2["Reconcile"] = False
     p, d = run(meas, a, b, kw)
+    if cfg.get("inplace"):
+        for (obj, moved) in ((a, a2), (b, b2)):
+            obj.spikes = moved.spikes
+            obj.t_start = moved.t_start
+            obj.t_end = moved.t_end
+        a2, b2 = a, b
     q, d2 = run(meas, a2, b2, kw2)
     n = len(p.x)
     E.observe("x", list(p.x))
